@@ -1,6 +1,6 @@
 (* Properties/C14.v — C14: a checkpoint restores exactly the state at its log index.
    Only the property theorems (closed by [exact]) and non-vacuity examples. *)
-From ZV Require Import Common.Bytes Ckpt.Consts Ckpt.Model Ckpt.Proofs Ckpt.ProofsName Ckpt.ProofsValue Ckpt.ProofsPlan Ckpt.ProofsChain.
+From ZV Require Import Common.Bytes Ckpt.Consts Ckpt.Model Ckpt.Proofs Ckpt.ProofsName Ckpt.ProofsValue Ckpt.ProofsPlan Ckpt.ProofsChain Ckpt.ProofsFetch Ckpt.ProofsOrder.
 From Coq Require Import Permutation Sorted.
 Open Scope N_scope.
 
@@ -165,6 +165,58 @@ Theorem C14_restore_write_restore_partial :
     content V decode fs3 d3 = content V decode fs ck /\ content V decode fs3 ck = content V decode fs ck.
 Proof. exact restore_write_restore. Qed.
 Print Assumptions C14_restore_write_restore_partial.
+
+(* fetching a checkpoint from a peer on the same host (reuse of the previous checkpoint's sst files
+   by hard link, then common.RunFileSync): nothing that existed is modified, whatever was reused *)
+Theorem C14_fetch_local_never_damages : forall fs old_ck src,
+  store_ok fs -> NoDup (map fst src) ->
+  extends fs (fst (fetch_local fs old_ck src)) /\
+  forall n, (exists m, file_at fs old_ck n = Some m) -> file_at (fst (fetch_local fs old_ck src)) old_ck n = file_at fs old_ck n.
+Proof. exact fetch_local_never_damages. Qed.
+Print Assumptions C14_fetch_local_never_damages.
+
+(* the copy as it was before /repo 3dfe70c (cp onto the reused hard links): an sst number reused by
+   the source with other content rewrites the inode the older checkpoint names. Witness replayed on
+   the Go code by corpus/C14/fetch-sst-number-reuse.tsv (fixed). *)
+Theorem C14_fetch_local_inplace_refuted :
+  exists fs old_ck src n,
+    store_ok fs /\ NoDup (map fst src) /\
+    file_at (fst (fetch_local_inplace fs old_ck src)) old_ck n <> file_at fs old_ck n.
+Proof. exact fetch_local_inplace_refuted. Qed.
+Print Assumptions C14_fetch_local_inplace_refuted.
+
+(* ---------- (5b) the order of steps inside one backup ---------- *)
+
+(* the engine captures the checkpoint's view, then releases the apply loop (which only then applies
+   further entries): for EVERY schedule of writes around these two events the checkpoint holds
+   exactly the content of the Backup call — no write applied after the release is in it *)
+Theorem C14_capture_before_release : forall l h0 s',
+  engine_events l = [BCapture; BRelease] ->
+  bsched_run (bstart h0) l = Some s' ->
+  b_view s' = Some h0.
+Proof. exact capture_before_release_safe. Qed.
+Print Assumptions C14_capture_before_release.
+
+(* the value-level step OBackup used by the theorems of (6) is this protocol with the safe order *)
+Theorem C14_backup_is_capture_release : forall s t i l st',
+  vs_pending s = None ->
+  engine_events l = [BCapture; BRelease] ->
+  bsched_run (bstart (vs_val s)) l = Some st' ->
+  let s2 := run (fst (vstep s (OBackup t i (vs_val s)))) (writes_of l) in
+  b_view st' = Some (vs_val s) /\
+  vs_pending s2 = Some (enc_name t i, vs_val s) /\ vs_val s2 = b_val st'.
+Proof. exact backup_protocol_refines. Qed.
+Print Assumptions C14_backup_is_capture_release.
+
+(* the opposite order (a notification sent before the engine call, a timer firing before the view is
+   fixed) lets a later write into the checkpoint. This was the pebble engine before /repo ed153ff
+   (corpus/C14/k1-pebble-checkpoint-timer.tsv); the rocksdb engine keeps a 20 ms timer and is on the
+   safe side only while RocksDB fixes its file list and WAL length within those 20 ms. *)
+Theorem C14_release_before_capture_refuted :
+  exists l h0 s', engine_events l = [BRelease; BCapture] /\
+    bsched_run (bstart h0) l = Some s' /\ b_view s' <> Some h0.
+Proof. exact release_before_capture_refuted. Qed.
+Print Assumptions C14_release_before_capture_refuted.
 
 (* ---------- (6) value level, for ALL histories ---------- *)
 
